@@ -621,7 +621,10 @@ impl FormatSpec {
                 (_, true) => Err(FormatSpecError::NotAllowed("Alternate form (#)")),
                 (_, _) if self.precision.is_some() => Err(FormatSpecError::PrecisionNotAllowed),
                 (_, _) => match num.to_u32() {
-                    Some(n) if n <= 0x10ffff => Ok(std::char::from_u32(n).unwrap().to_string()),
+                    // a surrogate code point (U+D800..U+DFFF) is in range, but no `char` exists for it
+                    Some(n) if n <= 0x10ffff => std::char::from_u32(n)
+                        .map(|c| c.to_string())
+                        .ok_or(FormatSpecError::CodeNotInRange),
                     Some(_) | None => Err(FormatSpecError::CodeNotInRange),
                 },
             },
